@@ -441,7 +441,27 @@ def int_range(v: Term) -> Optional[Tuple[Optional[int], Optional[int]]]:
         x = v[1]
         if isinstance(x, tuple) and x and x[0] == "sym" and isinstance(x[2], tuple) and x[2] and x[2][0] == "bytesr":
             return (x[2][1], x[2][2])
+        if is_seq(x):
+            # the length of a text / byte string made of bounded pieces: each hx[lo:hi] piece has at most hi-lo characters
+            hi_ = 0
+            for a in x[2]:
+                if isinstance(a, tuple) and a and a[0] == "L":
+                    hi_ += len(a[1])
+                elif isinstance(a, tuple) and len(a) == 4 and a[0] in ("hx", "HX") and isinstance(a[2], int) and isinstance(a[3], int) and 0 <= a[2] <= a[3]:
+                    hi_ += a[3] - a[2]
+                else:
+                    w_ = atom_width(a)
+                    if w_ is not None and w_.is_const():
+                        hi_ += int(w_.const)
+                    else:
+                        return (0, None)
+            return (0, hi_ // 2 if x[1] == "raw" else hi_)
         return (0, None)
+    if isinstance(v, tuple) and len(v) == 4 and v[0] == "ite":
+        ra, rb = int_range(v[2]), int_range(v[3])
+        if ra is None or rb is None:
+            return None
+        return (None if ra[0] is None or rb[0] is None else min(ra[0], rb[0]), None if ra[1] is None or rb[1] is None else max(ra[1], rb[1]))
     if isinstance(v, tuple) and v and v[0] == "lin":
         lo: Optional[float] = v[1].const
         hi: Optional[float] = v[1].const
